@@ -150,7 +150,7 @@ class PCTSPEnv(RL4COEnvBase):
     def get_action_mask(td: TensorDict) -> torch.Tensor:
         """Cannot visit depot if not yet collected 1 total prize and there are unvisited nodes"""
         mask = td["visited"] | td["visited"][..., 0:1]
-        mask[..., 0] = (td["cur_total_prize"] < 1.0) & (
+        mask[..., 0] = (td["cur_total_prize"] < td["prize_required"]) & (
             td["visited"][..., 1:].int().sum(-1) < td["visited"][..., 1:].size(-1)
         )
         return ~(mask > 0)  # Invert mask, since 1 means feasible action
@@ -196,7 +196,7 @@ class PCTSPEnv(RL4COEnvBase):
 
         # Either prize constraint should be satisfied or all prizes should be visited
         assert (
-            (p.sum(-1) >= 1 - 1e-5)
+            (p.sum(-1) >= td["prize_required"] - 1e-5)
             | (
                 sorted_actions.size(-1) - (sorted_actions == 0).int().sum(-1)
                 == (td["locs"].size(-2) - 1)
